@@ -33,8 +33,12 @@ var (
 	stateIdle      = protocol.NewState(1, "Idle")
 	stateAcquiring = protocol.NewState(2, "Acquiring")
 	stateAcquired  = protocol.NewState(3, "Acquired")
-	stateBusy      = protocol.NewState(4, "Busy")
-	stateDone      = protocol.NewState(5, "Done")
+	// One busy state per request kind, as in the network specification
+	// (StBusy NextTx / HasTx / GetSizes): each accepts only its own reply.
+	stateBusyNextTx   = protocol.NewState(4, "BusyNextTx")
+	stateDone         = protocol.NewState(5, "Done")
+	stateBusyHasTx    = protocol.NewState(6, "BusyHasTx")
+	stateBusyGetSizes = protocol.NewState(7, "BusyGetSizes")
 )
 
 // LocalTxMonitor protocol state machine
@@ -74,29 +78,39 @@ var StateMap = protocol.StateMap{
 			},
 			{
 				MsgType:  MessageTypeHasTx,
-				NewState: stateBusy,
+				NewState: stateBusyHasTx,
 			},
 			{
 				MsgType:  MessageTypeNextTx,
-				NewState: stateBusy,
+				NewState: stateBusyNextTx,
 			},
 			{
 				MsgType:  MessageTypeGetSizes,
-				NewState: stateBusy,
+				NewState: stateBusyGetSizes,
 			},
 		},
 	},
-	stateBusy: protocol.StateMapEntry{
+	stateBusyHasTx: protocol.StateMapEntry{
 		Agency: protocol.AgencyServer,
 		Transitions: []protocol.StateTransition{
 			{
 				MsgType:  MessageTypeReplyHasTx,
 				NewState: stateAcquired,
 			},
+		},
+	},
+	stateBusyNextTx: protocol.StateMapEntry{
+		Agency: protocol.AgencyServer,
+		Transitions: []protocol.StateTransition{
 			{
 				MsgType:  MessageTypeReplyNextTx,
 				NewState: stateAcquired,
 			},
+		},
+	},
+	stateBusyGetSizes: protocol.StateMapEntry{
+		Agency: protocol.AgencyServer,
+		Transitions: []protocol.StateTransition{
 			{
 				MsgType:  MessageTypeReplyGetSizes,
 				NewState: stateAcquired,
